@@ -292,9 +292,15 @@ def load_findings():
     return json.load(open(p))
 
 
-def finding_for(prop, case):
+def finding_for(prop, case, cls=None):
+    """an open finding listed in known_findings.json that covers this failing case: either by its exact
+    case line (`key`) or by its failure class (`class`), a string the property's generator module computes
+    from the failing result with `finding_class(r)` (a narrow, documented predicate on the input and on the
+    way it fails, so that any other violation of the same property is still reported)"""
     for f in load_findings():
-        if f.get("property") == prop and f.get("status") == "open" and f.get("key") == case:
+        if f.get("property") != prop or f.get("status") != "open":
+            continue
+        if f.get("key") == case or (cls is not None and f.get("class") == cls):
             return f
     return None
 
@@ -408,20 +414,24 @@ def run_check(mod, tier, seed, replay=None):
             if len(notes) < 5:
                 notes.append(r)
             continue
-        f = finding_for(prop, r["case"])
+        fc = getattr(mod, "finding_class", None)
+        f = finding_for(prop, r["case"], fc(r, k) if fc else None)
         if f:
             known.append((f, r))
             continue
         seen_fail.setdefault(k, []).append(r)
+    by_finding = {}
     for f, r in known:
-        log("KNOWN-FINDING: property=%s %s [%s]" % (prop, f["what"], r["case"][:120]))
+        by_finding.setdefault(f.get("id") or f.get("key"), (f, []))[1].append(r)
+    for fid, (f, rs) in by_finding.items():
+        log("KNOWN-FINDING: property=%s %s %s [%d case(s) in this run, e.g. %s]" % (prop, f.get("id", ""), f["what"], len(rs), min((x["case"] for x in rs), key=len)[:160]))
     for k in ("spec", "model"):
         fails = seen_fail.get(k, [])
         if not fails:
             continue
         first = min(fails[:50], key=lambda x: len(x["case"]))
         small = shrink(prop, first, k, valid=getattr(mod, "valid_case", None)) if not replay else first
-        if finding_for(prop, small["case"]):
+        if finding_for(prop, small["case"], getattr(mod, "finding_class", lambda r, k: None)(small, k)):
             small = first
         payload = {"property": prop, "kind": "impl-vs-spec (the real code contradicts the property on this input)" if k == "spec" else "impl-vs-model (correspondence between the Lean model and the code is broken; the theorems no longer speak about this code)",
                    "case": small["case"], "impl": small["impl"], "model": small["model"], "spec": small["spec"], "wf": small["wf"],
@@ -447,7 +457,7 @@ def run_check(mod, tier, seed, replay=None):
         log(v)
 
     # 6. evidence
-    ev = evidence(mod, tier, seed, t0, results, hist, len(theorems), discharged, broken_obligations, len(violations), lc_note, known=[f["key"] for f, _ in known])
+    ev = evidence(mod, tier, seed, t0, results, hist, len(theorems), discharged, broken_obligations, len(violations), lc_note, known=sorted(set(str(f.get("id") or f.get("key")) for f, _ in known)))
     write_evidence(prop, ev)
     log("%s %s: %d theorems audited (%d ok), %d cases, %d distinct non-trivial, %d violations, %.1fs" % (prop, tier, len(theorems), discharged, len(results), ev["coverage"]["distinct_nontrivial"], len(violations), time.time() - t0))
     return 1 if violations else 0
